@@ -62,6 +62,8 @@ def full_like(
     fill_value = numpoly.aspolynomial(fill_value)
     if shape is None:
         shape = a.shape
+    elif isinstance(shape, (int, numpy.integer)):
+        shape = (shape,)
     if dtype is None:
         dtype = a.dtype
     if order in ("A", "K"):
